@@ -100,21 +100,25 @@ def r2_network_config(chk: Check) -> None:
     chk.rule("C14.R2", "PLUMBED(network config -> session / kwargs): auth, headers, cert, verify, proxy reach the session; every engine send site passes the engine transport kwargs", floor=8)
     P = chk.project
     sess = P.func("engine/context.py:EngineContext.session")
-    text = unparse(sess.node, 100000)
-    for needle, what in (
-        ("session.auth = config.auth", "basic-auth credentials (--auth)"),
-        ("session.headers.update(config.headers)", "configured headers (--header)"),
-        ("session.cert = config.cert", "client certificate"),
-        ("session.verify = config.tls_verify", "TLS verification flag"),
+    svars = defined_by(sess, "$v = requests.Session()")
+    if not svars:
+        raise Undecided("requests.Session() construction not found in EngineContext.session")
+    sv = svars[0]
+    NET = "self.config.network"
+    for pat, needle, what in (
+        (f"{sv}.auth = {NET}.auth", "session.auth = config.auth", "basic-auth credentials (--auth)"),
+        (f"{sv}.headers.update({NET}.headers)", "session.headers.update(config.headers)", "configured headers (--header)"),
+        (f"{sv}.cert = {NET}.cert", "session.cert = config.cert", "client certificate"),
+        (f"{sv}.verify = {NET}.tls_verify", "session.verify = config.tls_verify", "TLS verification flag"),
     ):
-        chk.decide(needle in text, "C14.R2", sess, needle, f"{what} no longer reach the requests session", sess.loc())
-    g = cfg_of(sess)
-    for needle, cond in (("session.auth = config.auth", "config.auth is not None"), ("session.headers.update(config.headers)", "config.headers")):
+        hits = pfind(pat, sess.node)
+        chk.decide(bool(hits), "C14.R2", sess, needle, f"{what} no longer reach the requests session", sess.loc())
+    for pat, needle, cond in ((f"{sv}.auth = {NET}.auth", "session.auth = config.auth", f"{NET}.auth is not None"), (f"{sv}.headers.update({NET}.headers)", "session.headers.update(config.headers)", f"{NET}.headers")):
         for n in walk_body(sess.node):
-            if isinstance(n, ast.If) and needle in unparse(n, 400):
-                chk.decide(unparse(n.test) == cond, "C14.R2", sess, f"`{needle}` guarded by `{cond}`", f"guard is `{unparse(n.test)}`", sess.loc(n))
+            if isinstance(n, ast.If) and phas(pat, n.body):
+                chk.decide(unparse(n.test) == cond, "C14.R2", sess, f"`{needle}` guarded by `{cond.replace(NET, 'config')}`", f"guard is `{unparse(n.test)}`", sess.loc(n))
     rets = simple_return_expr(sess)
-    chk.decide(any(isinstance(r, ast.Name) and r.id == "session" for r in rets), "C14.R2", sess, "configured session returned", "a different session object is returned", sess.loc())
+    chk.decide(any(isinstance(r, ast.Name) and r.id == sv for r in rets), "C14.R2", sess, "configured session returned", "a different session object is returned", sess.loc())
     tk = P.func("engine/context.py:EngineContext.transport_kwargs")
     d = next((v for _, v in assignments_to(tk.node, "kwargs") if isinstance(v, ast.Dict)), None)
     want = {"session": "self.session", "headers": "self.config.network.headers", "verify": "self.config.network.tls_verify", "cert": "self.config.network.cert", "timeout": "self.config.network.timeout"}
